@@ -731,7 +731,8 @@ func TestVerif_C13_CoordinatedSchedules(t *testing.T) {
 			case "getclients":
 				g.GetClients(nil)
 			case "recorder-asks-whip":
-				W.RequestConns(R, g, "")
+				// as the "record" and "request" handlers do: every member is asked for its streams on behalf of the target
+				requestConns(R, g, "")
 			case "web-offer":
 				// the web client's own loop: an offer for a new stream, then whatever got queued for it
 				handleClientMessage(wb.c, clientMessage{Type: "offer", Id: "wbup", Label: "camera", SDP: offerSDP})
